@@ -4,6 +4,8 @@ PACKET_STREAM = {"name": "packet", "test": "TestStreamPacket", "cases": 8, "ops"
 
 PACKET_DEEP = {"name": "packetdeep", "test": "TestStreamPacket", "cases": 5, "ops": 0, "thorough_scale": 15, "env": {"VERIF_PROFILE": "deep"}}
 
+KEYS_STREAM = {"name": "keys", "test": "TestStreamKeys", "cases": 2, "ops": 400, "thorough_scale": 20}
+
 COMMON_ASSUME = [
     "Cosmos SDK BaseApp discards the writes of a failing message (modelled by `deliver`)",
     "light-client verification at the ideal boundary: a client's recorded state at a height is the counterparty's real provable store (justified by C07/C08/C17/C18 and exercised with real proofs)",
@@ -11,13 +13,13 @@ COMMON_ASSUME = [
 ]
 
 def packet_prop(expl, extra_assume=()):
-    return {"level": "proof", "streams": [PACKET_STREAM, PACKET_DEEP], "assumptions": COMMON_ASSUME + list(extra_assume), "explanation": expl}
+    return {"level": "proof", "streams": [PACKET_STREAM, PACKET_DEEP, KEYS_STREAM], "assumptions": COMMON_ASSUME + list(extra_assume), "explanation": expl}
 
 PROPS = {
     "C01": {
         "level": "proof",
         "lean_modules": ["Tibc.Props.C01"],
-        "streams": [PACKET_STREAM],
+        "streams": [PACKET_STREAM, KEYS_STREAM],
         "assumptions": COMMON_ASSUME,
         "explanation": "Lean theorems over the packet-keeper / msg-server / N-chain world model; model tied to the code by the packet correspondence stream (real simapp chains, real IAVL proofs) and the implementation-side oracle `recv-accepted-without-commitment`.",
     },
@@ -93,7 +95,7 @@ PROPS = {
             "technique": "Lean 4 order-independence theorems + record/replay differential execution of the real application",
             "explanation": "Lean: Props/C20. Replay: det stream (NFT/MT transfers over a relay, TM / BSC / ETH client updates incl. rotations and forks, clean packets; ~100 blocks per case)."},
     "C16": {"level": "proof", "lean_modules": ["Tibc.Props.C16"],
-            "streams": [{"name": "genesis", "test": "TestStreamGenesis", "cases": 3, "ops": 100, "thorough_scale": 10, "model": False}],
+            "streams": [{"name": "genesis", "test": "TestStreamGenesis", "cases": 3, "ops": 100, "thorough_scale": 10, "model": False}, KEYS_STREAM],
             "assumptions": ["the genesis types are modelled by what their fields can carry (protobuf / JSON encoding of the genesis file abstract)",
                             "stores of other modules (SDK modules, irismod nft / mt token modules) are outside TIBC's genesis: the stream makes them identical on both chains before the continuation",
                             "the SimApp's default export is not usable as shipped (feegrant ordered but not registered, evidence keeper without store): the stream exports every module but those two"],
@@ -111,3 +113,5 @@ EXPECT = {
 }
 for _p in ("C01", "C02", "C03", "C04", "C05", "C06", "C09", "C10", "C11", "C13", "C16", "C19"):
     EXPECT[_p] = ["Tibc.Expect.Packet"]
+for _p in ("C01", "C02", "C03", "C09", "C10", "C16"):
+    EXPECT[_p] = EXPECT[_p] + ["Tibc.Expect.Keys"]
